@@ -89,6 +89,10 @@ func c05Counter(c *Ctx) {
 						if k, isK := constInt(lastArg(other)); isK && k == 1 {
 							if through, _ := flow.MustPassThrough(call, func(x ssa.Instruction) bool { return x == other.(ssa.Instruction) }, nil); through || flow.InstrDominates(other, call) && other.Block() == call.Block() {
 								setHere = true
+								// the index whose bit is set was tested clear on every path (search written out in place)
+								if args := other.Common().Args; len(args) >= 2 && !ok && bitClearOnEveryPath(call, args[len(args)-2]) {
+									ok = true
+								}
 							}
 						}
 					}
@@ -340,11 +344,20 @@ func c05Rollback(c *Ctx, ruleID string) {
 		write         callPred
 		writeName     string
 	}
+	// the store operation is the wrapper method or, when written out, the interface call on the store field
+	storeInvoke := func(method string) callPred {
+		return func(call ssa.CallInstruction) bool {
+			com := call.Common()
+			return com.IsInvoke() && com.Method.Name() == method && strings.HasSuffix(flow.FieldOwner(com.Value), "DistributedAllocator.store")
+		}
+	}
+	daSave := anyOf(callTo("pkg/allocator", "DistributedAllocator", "saveAllocation"), storeInvoke("Put"))
+	daDel := anyOf(callTo("pkg/allocator", "DistributedAllocator", "deleteAllocation"), storeInvoke("Delete"))
 	memAcq := anyOf(callTo("pkg/allocator", "IPAllocator", "Allocate"), callTo("pkg/allocator", "EpochBitmapAllocator", "Allocate"))
 	memRel := anyOf(callTo("pkg/allocator", "IPAllocator", "Release"), callTo("pkg/allocator", "EpochBitmapAllocator", "Release"))
 	for _, sp := range []spec{
-		{"pkg/allocator", "DistributedAllocator", "Allocate", memAcq, memRel, callTo("pkg/allocator", "DistributedAllocator", "saveAllocation"), "saveAllocation()"},
-		{"pkg/allocator", "DistributedAllocator", "AllocateWithMAC", memAcq, memRel, callTo("pkg/allocator", "DistributedAllocator", "saveAllocation"), "saveAllocation()"},
+		{"pkg/allocator", "DistributedAllocator", "Allocate", memAcq, memRel, daSave, "saveAllocation()"},
+		{"pkg/allocator", "DistributedAllocator", "AllocateWithMAC", memAcq, memRel, daSave, "saveAllocation()"},
 		{"pkg/allocator", "PoolAllocator", "AllocateWithOptions", memAcq, memRel, invokeOf("SaveAllocation"), "SaveAllocation()"},
 	} {
 		f := c.fn(sp.rel, sp.recv, sp.fn)
@@ -383,6 +396,9 @@ func c05Rollback(c *Ctx, ruleID string) {
 				continue
 			}
 			failed := has(atoms, sp.writeName+"!=nil") || has(atoms, "!"+sp.writeName+"==nil")
+			if sp.writeName == "saveAllocation()" {
+				failed = failed || has(atoms, "Put()!=nil") || has(atoms, "!Put()==nil")
+			}
 			if failed {
 				n++
 				if !has(acts, "release") {
@@ -398,7 +414,7 @@ func c05Rollback(c *Ctx, ruleID string) {
 		del           callPred
 		delName       string
 	}{
-		{"pkg/allocator", "DistributedAllocator", "Release", callTo("pkg/allocator", "DistributedAllocator", "deleteAllocation"), "deleteAllocation()"},
+		{"pkg/allocator", "DistributedAllocator", "Release", daDel, "deleteAllocation()"},
 		{"pkg/allocator", "PoolAllocator", "Release", invokeOf("RemoveAllocation"), "RemoveAllocation()"},
 	} {
 		f := c.fn(sp.rel, sp.recv, sp.fn)
@@ -422,7 +438,7 @@ func c05Rollback(c *Ctx, ruleID string) {
 			for _, ft := range flow.FactsAtInstr(call) {
 				if bo, isB := ft.Cond.(*ssa.BinOp); isB && isNilConst(bo.Y) {
 					n := errOriginAny(bo.X)
-					if n == sp.delName && ((bo.Op == token.NEQ && !ft.Pol) || (bo.Op == token.EQL && ft.Pol)) {
+					if (n == sp.delName || (sp.delName == "deleteAllocation()" && n == "Delete()")) && ((bo.Op == token.NEQ && !ft.Pol) || (bo.Op == token.EQL && ft.Pol)) {
 						dom = true
 					}
 					if n == "Lookup()" && ((bo.Op == token.EQL && ft.Pol) || (bo.Op == token.NEQ && !ft.Pol)) {
@@ -449,7 +465,7 @@ func c05Rollback(c *Ctx, ruleID string) {
 			h := locks.Analyze(fn)
 			for _, call := range flow.Calls(fn) {
 				g := call.Common().StaticCallee()
-				isStore := g != nil && (g.Name() == "saveAllocation" || g.Name() == "deleteAllocation") && flow.RecvTypeName(g) == "DistributedAllocator"
+				isStore := (g != nil && (g.Name() == "saveAllocation" || g.Name() == "deleteAllocation") && flow.RecvTypeName(g) == "DistributedAllocator") || storeInvoke("Put")(call) || storeInvoke("Delete")(call)
 				isMem := memAcq(call) || memRel(call) || callTo("pkg/allocator", "EpochBitmapAllocator", "Renew")(call)
 				if !isStore && !isMem {
 					continue
